@@ -17,6 +17,8 @@ COMBOS = {
     "field_decls": [["inst", "inst"], ["meta", "fields"]],
     "lazy_parent": [["inst", "inst"], ["inst", "meta"]],
     "own_new": [["inst", "inst"], ["fields", "inst"]],
+    "lazy_parent_split": [["inst", "pinst"], ["meta", "pmeta"], ["pinst", "fields"]],
+    "mixin_new": [["sub", "sub"], ["sub", "inst"]],
     "plain_subclass": [["sub", "inst"], ["sub", "sub"], ["meta", "sub"]],
     "keyed_nested": [["inst", "inst"], ["inst", "fields"]],
 }
